@@ -2,13 +2,15 @@
   Driver verb of C01's pass-widening tie (core Lean only):
 
     srcden <pre-id> <post-id> <pkg> <object> <json-sexp>
-      → plain=<b> plainN=<b> src=<b> den=<b> mden=<b|err> why=<reason|-> notplain=<reason|-> notplainN=<reason|->
+      → plain=<b> plainN=<b> plainS=<b> src=<b> den=<b> mden=<b|err> why=<reason|-> notplain=<reason|-> notplainN=<reason|-> notplainS=<reason|->
 
   `<pre-id>` / `<post-id>` name schema sets stored with `defschemas`: the PRE-chain IR (front-end
   output) and the REAL post-Go-chain IR of one lab case.  The driver evaluates, at one fuel,
     plain : `Plain pre`                                  (hypothesis of C01_pass_widening_plain_partial)
     plainN: `PlainX pre`                                 (hypothesis of C01_pass_widening_ext_partial: `T | null`
                                                           pairs, anonymous enums with fresh generated names)
+    plainS: `PlainS pre`                                 (hypothesis of C01_pass_widening_struct_partial: also
+                                                          anonymous structs with fresh generated names)
     src   : `srcDen fuel pre (ref pkg object) doc`       (hypothesis)
     den   : `den (fuel+1) post (ref pkg object) doc`     (conclusion, on the REAL passes' output; for a
                                                           plain `pre` the theorem gives `fuel` and `den` is
@@ -19,6 +21,7 @@
 -/
 import Cog.Sem.SrcDen
 import Cog.Sem.WidenChainN
+import Cog.Sem.WidenStruct
 import Cog.Passes.Chain
 import Cog.Gen.Chains
 import Cog.Drv.SchemaStore
@@ -193,6 +196,8 @@ def plainWhy (S : Schemas) : Option String :=
 structure SrcPrep where
   plain : Bool
   plainN : Bool
+  plainS : Bool
+  notplainS : String
   notplain : String
   notplainN : String
   model : Option Schemas      -- `runChain goChain pre`, none = err / panic
@@ -206,6 +211,12 @@ def srcPrep (id : String) (pre : Schemas) : IO SrcPrep := do
     let p : SrcPrep := {
       plain := Plain pre
       plainN := PlainX pre
+      plainS := PlainS pre
+      notplainS :=
+        if !structFresh pre then "struct-names-not-fresh-or-object-map"
+        else match plainNWhy (asnS pre) with
+          | some r => r
+          | none => if enumFresh (nullOptS (nrS (asnS pre))) then "-" else "generated-enum-name-not-fresh"
       notplain := (plainWhy pre).getD "-"
       notplainN := match plainNWhy pre with
         | some r => r
@@ -230,7 +241,7 @@ def srcdenLine (rest : String) : IO String := do
           | some m => toString (den (srcFuel + 1) m t j)
           | none => "err"
         let why := if src then "-" else (srcWhy pre srcFuel t j).getD "unexplained"
-        return s!"plain={prep.plain} plainN={prep.plainN} src={src} den={dn} mden={mden} why={why} notplain={prep.notplain} notplainN={prep.notplainN}"
+        return s!"plain={prep.plain} plainN={prep.plainN} plainS={prep.plainS} src={src} den={dn} mden={mden} why={why} notplain={prep.notplain} notplainN={prep.notplainN} notplainS={prep.notplainS}"
     | _, _ => return "unknown-schemas"
   | _ => return "bad-request"
 
